@@ -436,6 +436,16 @@ func eqLiterals(t *Term, out [][2]*Term) ([][2]*Term, bool) {
 	switch {
 	case t.Op == "=" && t.Args[0].Sort != SBool:
 		a, b := t.Args[0], t.Args[1]
+		// c = to_upper(x) / to_lower(x) with c already in that case: x := c is a candidate
+		unwrap := func(x, c *Term) *Term {
+			if c.Op == "cs" && len(x.Args) == 1 && x.Args[0].Op == "var" {
+				if (x.Op == "str.to_upper" && strings.ToUpper(c.S) == c.S) || (x.Op == "str.to_lower" && strings.ToLower(c.S) == c.S) {
+					return x.Args[0]
+				}
+			}
+			return x
+		}
+		a, b = unwrap(a, b), unwrap(b, a)
 		if (a.Op == "var" || a.isConst()) && (b.Op == "var" || b.isConst()) {
 			return append(out, [2]*Term{a, b}), true
 		}
